@@ -950,6 +950,36 @@ def rule_reversal_parity(ctx: Ctx, rep: Report) -> None:
     rep.floor(rule, 8)
 
 
+def _int_alias(ctx: Ctx, name: str) -> bool:
+    """`name` is `int`, or an alias of btclib.alias defined as int / a Literal of integers."""
+    if name == "int":
+        return True
+    al = ctx.module("btclib.alias")
+    for st in al.tree.body:
+        if isinstance(st, ast.Assign) and len(st.targets) == 1 and isinstance(st.targets[0], ast.Name) and st.targets[0].id == name:
+            v = st.value
+            if isinstance(v, ast.Name):
+                return _int_alias(ctx, v.id)
+            if isinstance(v, ast.Subscript) and isinstance(v.value, ast.Name) and v.value.id == "Literal":
+                elts = v.slice.elts if isinstance(v.slice, ast.Tuple) else [v.slice]
+                return all(isinstance(e, ast.Constant) and type(e.value) is int for e in elts)
+    return False
+
+
+def _optional_int(ctx: Ctx, ann: ast.AST) -> bool:
+    """The annotation is `T | None` / `Optional[T]` with T an integer type or alias."""
+    parts: list[ast.AST] = []
+    if isinstance(ann, ast.BinOp) and isinstance(ann.op, ast.BitOr):
+        parts = [ann.left, ann.right]
+    elif isinstance(ann, ast.Subscript) and isinstance(ann.value, ast.Name) and ann.value.id == "Optional":
+        parts = [ann.slice, ast.Constant(None)]
+    if len(parts) != 2:
+        return False
+    nones = [p_ for p_ in parts if isinstance(p_, ast.Constant) and p_.value is None]
+    rest = [p_ for p_ in parts if not (isinstance(p_, ast.Constant) and p_.value is None)]
+    return len(nones) == 1 and len(rest) == 1 and isinstance(rest[0], ast.Name) and _int_alias(ctx, rest[0].id)
+
+
 def rule_zero_is_present(ctx: Ctx, rep: Report) -> None:
     """C05.zero_is_present: PsbtIn.serialize leaves a field out when it is None --
     and, by truthiness, when it is empty -- except the fields listed in
@@ -967,8 +997,7 @@ def rule_zero_is_present(ctx: Ctx, rep: Report) -> None:
     n = 0
     for st in ci.node.body:
         if isinstance(st, ast.AnnAssign) and isinstance(st.target, ast.Name):
-            ann = str(norm(st.annotation)).replace(" ", "")
-            if ann in ("int|None", "Optional[int]", "None|int"):
+            if _optional_int(ctx, st.annotation):
                 n += 1
                 f = st.target.id
                 rep.ob(rule, f"PsbtIn.{f}", f in listed, f"{mi.relpath}:{st.lineno}", "written whenever it is not None" if f in listed else
@@ -976,7 +1005,7 @@ def rule_zero_is_present(ctx: Ctx, rep: Report) -> None:
     # the serializer consults the set where it decides to skip
     ser = ci.methods["serialize"]
     rep.ob(rule, "PsbtIn.serialize:consults", "_PRESENT_IF_NOT_NONE" in str(norm(ser.node)), ser.where(), "serialize reads the set at its skip test")
-    rep.floor(rule, 4)
+    rep.floor(rule, 5)
 
 
 RULES = [
@@ -1011,7 +1040,8 @@ def _flip_signed(qual: str, index: int = 0):
 CONTROLS = [
     {"rule": "C05.zero_is_present", "name": "a sequence of 0 counts as absent", "module": "btclib.psbt.psbt_in",
      "edit": lambda ctx: M.sub_module_expr(ctx, "btclib.psbt.psbt_in", lambda n: isinstance(n, ast.Constant) and n.value == "sequence" and isinstance(parent(n), ast.Set)
-                                           and any(isinstance(e, ast.Constant) and e.value == "required_time_lock_time" for e in parent(n).elts) and len(parent(n).elts) == 4, "'sequence_'")},
+                                           and any(isinstance(e, ast.Constant) and e.value == "required_time_lock_time" for e in parent(n).elts)
+                                           and not any(isinstance(e, ast.Constant) and e.value == "previous_tx_id" for e in parent(n).elts), "'sequence_'")},
     {"rule": "C05.reversal_parity", "name": "GetCFCheckpt.parse takes the stop hash as it is on the wire", "module": "btclib.p2p.block_filters",
      "edit": lambda ctx: M.sub_expr(ctx, "btclib.p2p.block_filters.GetCFCheckpt.parse", lambda n: isinstance(n, ast.Subscript) and isinstance(n.slice, ast.Slice) and n.slice.step is not None,
                                     lambda n: norm(n.value))},
